@@ -4,6 +4,7 @@
 From SQ Require Import lib.Base gen.Gen_C16.
 From SQ Require model.SlidingWindow proofs.SlidingWindowProofs.
 From SQ Require model.IntervalSet proofs.IntervalSetProofs model.AckRanges model.PnMap.
+From SQ Require proofs.IntervalSetRemove proofs.IntervalSetSearch proofs.IntervalSetOps proofs.IntervalSetRun.
 Local Open Scope N_scope.
 
 (* ------------------------------------------------------------------------------------------ *)
@@ -107,6 +108,78 @@ Theorem C16_iset_insert_history_partial : forall emax ops s,
   IntervalSetProofs.iswf emax (IntervalSet.intervals (IntervalSetProofs.inserts_ref s ops)).
 Proof. exact IntervalSetProofs.insert_front_history. Qed.
 
+(* ---- phase 2: every operation of IntervalSet equals its reference operation on every well-formed set ---- *)
+
+(* insert, any size: the binary-search start slot of index_for (>= 16 intervals) is a valid start *)
+Theorem C16_iset_insert_refines : forall emax s a b,
+  IntervalSetProofs.iswf emax (IntervalSet.intervals s) -> b <= emax ->
+  N.of_nat (length (IntervalSet.intervals s)) < IntervalSet.usize_max -> IntervalSetProofs.lim_ok s ->
+  IntervalSet.insert emax s a b = IntervalSet.ref_insert s a b.
+Proof. exact IntervalSetOps.insert_refines. Qed.
+
+(* remove: Removal::scan with its in-place edits, push_range / the split case, the limit logic and apply *)
+Theorem C16_iset_remove_refines : forall emax s a b,
+  IntervalSetProofs.iswf emax (IntervalSet.intervals s) -> b <= emax ->
+  N.of_nat (length (IntervalSet.intervals s)) < IntervalSet.usize_max ->
+  IntervalSet.remove emax s a b = IntervalSet.ref_remove s a b.
+Proof. exact IntervalSetOps.remove_refines. Qed.
+
+Theorem C16_ref_rem_wf : forall emax l a b, IntervalSetProofs.iswf emax l -> a <= b ->
+  IntervalSetProofs.iswf emax (IntervalSet.ref_rem a b l).
+Proof. exact IntervalSetOps.ref_rem_wf. Qed.
+
+(* contains (binary_search_with) is membership; index_for returns a slot before which everything ends at
+   least two below the new start *)
+Theorem C16_iset_contains_spec : forall emax s v, IntervalSetProofs.iswf emax (IntervalSet.intervals s) ->
+  IntervalSet.contains s v = IntervalSet.mem_ivals v (IntervalSet.intervals s).
+Proof. exact IntervalSetSearch.contains_spec. Qed.
+
+Theorem C16_iset_index_for_spec : forall emax l a, IntervalSetProofs.iswf emax l -> l <> [] ->
+  IntervalSet.index_for l a <= N.of_nat (length l) /\
+  forall b, In b (firstn (N.to_nat (IntervalSet.index_for l a)) l) -> snd b + 1 < fst a.
+Proof. exact IntervalSetSearch.index_for_spec. Qed.
+
+(* union / difference: set_operation with the running index = sequential reference inserts / removes,
+   stopping at the first error with the set as modified so far *)
+Theorem C16_iset_union_refines : forall emax s other,
+  IntervalSetProofs.iswf emax (IntervalSet.intervals s) -> IntervalSetProofs.iswf emax other ->
+  N.of_nat (length (IntervalSet.intervals s)) + N.of_nat (length other) < IntervalSet.usize_max ->
+  IntervalSet.union emax s other = IntervalSet.ref_union s other.
+Proof. exact IntervalSetOps.union_refines. Qed.
+
+Theorem C16_iset_difference_refines : forall emax s other,
+  IntervalSetProofs.iswf emax (IntervalSet.intervals s) -> IntervalSetProofs.iswf emax other ->
+  N.of_nat (length (IntervalSet.intervals s)) + N.of_nat (length other) < IntervalSet.usize_max ->
+  IntervalSet.difference emax s other = IntervalSet.ref_difference s other.
+Proof. exact IntervalSetOps.difference_refines. Qed.
+
+(* iset_refines, step form, full op alphabet of the component (insert, remove, contains, pop_min,
+   insert_front, set/remove limit, second set, union, difference, intersection, clear): under the
+   representation invariant (both sets ISWf, limits >= 1) the model's step is the reference step and
+   the invariant is kept.  step_ok = operands are u64, fewer than usize::MAX intervals, and - the one
+   PARTIAL point - the result of an intersection is checked to be well formed instead of that being
+   proved of ref_inter (intersection::apply itself is not modelled at control-flow level). *)
+Theorem C16_iset_refines : forall sa sb op a b, IntervalSetRun.Inv sa sb ->
+  IntervalSetRun.step_ok sa sb op a b = true ->
+  IntervalSet.step (IntervalSet.model_ops IntervalSetRun.emax64) sa sb op a b = IntervalSet.step IntervalSet.ref_ops sa sb op a b /\
+  IntervalSetRun.Inv (fst (fst (IntervalSet.step IntervalSet.ref_ops sa sb op a b)))
+                     (snd (fst (IntervalSet.step IntervalSet.ref_ops sa sb op a b))).
+Proof. exact IntervalSetRun.step_refines. Qed.
+
+(* judge_run for the iset component: all histories *)
+Theorem C16_iset_run_is_spec : forall c, IntervalSetRun.iset_case_ok c = true ->
+  IntervalSet.run c = IntervalSet.spec_run c.
+Proof. exact IntervalSetRun.iset_run_is_spec. Qed.
+
+Theorem C16_iset_judge_model : forall c, IntervalSetRun.iset_case_ok c = true ->
+  IntervalSet.judge c (IntervalSet.run c) = true.
+Proof. exact IntervalSetRun.iset_judge_run. Qed.
+
+(* the premise is met by a non-trivial case (including an intersection) *)
+Example C16_iset_case_ok_example :
+  IntervalSetRun.iset_case_ok [0;5;9; 0;20;29; 0;10;19; 1;12;13; 5;2;0; 1;25;26; 6;0;100; 7;1;0; 6;3;8; 7;2;0; 7;0;0]%Z = true.
+Proof. vm_compute. reflexivity. Qed.
+
 (* non-vacuity: model and reference agree on a run with merges, a split, the limit and both set operations *)
 Example C16_iset_example :
   IntervalSet.run [0;5;9; 0;20;29; 0;10;19; 1;12;13; 5;2;0; 1;25;26; 6;0;100; 7;1;0]%Z =
@@ -127,3 +200,13 @@ Print Assumptions C16_ref_insert_spec.
 Print Assumptions C16_iset_insert_front_refines_partial.
 Print Assumptions C16_iset_insert_refines_partial.
 Print Assumptions C16_iset_insert_history_partial.
+Print Assumptions C16_iset_insert_refines.
+Print Assumptions C16_iset_remove_refines.
+Print Assumptions C16_ref_rem_wf.
+Print Assumptions C16_iset_contains_spec.
+Print Assumptions C16_iset_index_for_spec.
+Print Assumptions C16_iset_union_refines.
+Print Assumptions C16_iset_difference_refines.
+Print Assumptions C16_iset_refines.
+Print Assumptions C16_iset_run_is_spec.
+Print Assumptions C16_iset_judge_model.
